@@ -110,7 +110,10 @@ func (l *Lexer) NextToken() token.Token {
 		tok := l.bracesToken(token.LBRACES, "{{")
 
 		if l.char == '-' && l.peekChar() == '-' {
-			l.skipComment()
+			if !l.skipComment() {
+				return l.unterminatedCommentToken(tok)
+			}
+
 			return l.NextToken()
 		}
 
@@ -573,23 +576,33 @@ func (l *Lexer) skipWhitespace() {
 	}
 }
 
-func (l *Lexer) skipComment() {
-	for l.char != 0 {
-		if l.char != '-' || l.peekChar() != '-' {
-			l.readChar()
-			continue
-		}
+// skipComment skips everything up to and including the closing "--}}".
+// It returns false when the comment is not closed before the end of input.
+func (l *Lexer) skipComment() bool {
+	for l.char != 0 && !strings.HasPrefix(l.input[l.pos:], "--}}") {
+		l.readChar()
+	}
 
-		l.readChar() // skip "-"
-		l.readChar() // skip "-"
-
-		if l.char == '}' || l.peekChar() == '}' {
-			break
-		}
+	if l.char == 0 {
+		return false
 	}
 
 	l.isHTML = true
 
+	l.readChar() // skip "-"
+	l.readChar() // skip "-"
 	l.readChar() // skip "}"
 	l.readChar() // skip "}"
+
+	return true
+}
+
+// unterminatedCommentToken turns the opening braces token
+// of an unterminated comment into an illegal "{{--" token
+func (l *Lexer) unterminatedCommentToken(braces token.Token) token.Token {
+	braces.Type = token.ILLEGAL
+	braces.Literal = "{{--"
+	braces.Pos.EndCol += 2
+
+	return braces
 }
